@@ -79,12 +79,27 @@ def addressing_case(rng, dll):
     bad = []
     dests = list(range(256)) if rng.random() < 0.3 else rng.sample(range(256), 40) + [255, 254, 0x80, 0x90, 0x33, 0x20, 0]
     for d in dests:
-        for kind in ('pdu1', 'rts', 'dt', 'cts', 'abort', 'bam?'):
+        local_sa = [c.device_address for c, m in cas if c.state == 2] + [c._device_address_announced for c, m in cas if c.state == 1]
+        for kind in ('pdu1', 'rts', 'dt', 'cts', 'abort', 'claim', 'request', 'fd-rts', 'fd-dt', 'fd-cts'):
             got.clear(); st.sent.clear()
-            if dll == 'j1939-22' and kind != 'pdu1':
+            if dll == 'j1939-22' and kind in ('rts', 'dt', 'cts', 'abort'):
                 continue
+            if dll == 'j1939-21' and kind.startswith('fd-'):
+                continue
+            states_before = [(c.state, c._device_address, c._device_address_announced) for c, m in cas]
             if kind == 'pdu1':
                 cid, data = can_id(6, 0xD0, d, 0x55), [1, 2, 3]
+            elif kind == 'claim':
+                # an address claim sent to a SPECIFIC destination, from an address a local CA holds or announces, lower or higher NAME
+                cid, data = can_id(6, 0xEE, d, rng.choice(local_sa + [0x55])), list(j.Name(value=rng.choice([1, 1 << 62])).bytes)
+            elif kind == 'request':
+                cid, data = can_id(6, 0xEA, d, rng.choice(local_sa + [0x55])), rng.choice([[0, 0xEE, 0], [0xCA, 0xFE, 0]])
+            elif kind == 'fd-rts':
+                cid, data = can_id(7, 0x4D, d, 0x55), [0, 130, 0, 0, 3, 0, 0, 255, 0, 0, 0xD0, 0]
+            elif kind == 'fd-dt':
+                cid, data = can_id(7, 0x4E, d, 0x55), [0, 1, 0, 0] + [7] * 60
+            elif kind == 'fd-cts':
+                cid, data = can_id(7, 0x4D, d, 0x55), [1, 255, 255, 255, 1, 0, 0, 1, 0, 0, 0xD0, 0]
             elif kind == 'rts':
                 cid, data = can_id(7, TP_CM, d, 0x55), [16, 20, 0, 3, 255, 0, 0xD0, 0]
             elif kind == 'dt':
@@ -96,14 +111,20 @@ def addressing_case(rng, dll):
             else:
                 continue
             before = (dict(st.ecu.j1939_dll._rcv_buffer), dict(st.ecu.j1939_dll._snd_buffer))
+            is_owned = owned(d)          # judged BEFORE the frame: a claim may take the address away
             st.notify(cid, data)
-            if d != 255 and not owned(d):
-                if got or st.sent or (dict(st.ecu.j1939_dll._rcv_buffer), dict(st.ecu.j1939_dll._snd_buffer)) != before:
-                    bad.append(f"{kind} frame to unowned address {d:#x} ({dll}): deliveries {got}, transmitted {[(hex(f[1]), f[3]) for f in st.sent]}, "
-                               f"tables changed {(dict(st.ecu.j1939_dll._rcv_buffer), dict(st.ecu.j1939_dll._snd_buffer)) != before}")
+            if d != 255 and not is_owned:
+                states_after = [(c.state, c._device_address, c._device_address_announced) for c, m in cas]
+                if got or st.sent or (dict(st.ecu.j1939_dll._rcv_buffer), dict(st.ecu.j1939_dll._snd_buffer)) != before or states_after != states_before:
+                    bad.append(f"{kind} frame {cid:#x} to unowned address {d:#x} ({dll}): deliveries {got}, transmitted {[(hex(f[1]), f[3]) for f in st.sent]}, "
+                               f"tables changed {(dict(st.ecu.j1939_dll._rcv_buffer), dict(st.ecu.j1939_dll._snd_buffer)) != before}, "
+                               f"CA states {states_before} -> {states_after}")
+            elif states_before != [(c.state, c._device_address, c._device_address_announced) for c, m in cas] and kind in ('claim',):
+                # an owned / global destination: the claim was for us — restore so that later probes see the same CAs
+                return bad, dict(dll=dll, cas=[(m, c.state, c.device_address) for c, m in cas], regs=regs, stopped='claim changed a CA')
             if kind == 'pdu1':
                 wrong = [g for g in got if not may_receive(g[0], d)]
-                missing = [n for n in ([r[0] for r in regs] + [f'ca{k}' for k in range(len(cas))]) if may_receive(n, d) and (d == 255 or owned(d)) and not any(g[0] == n for g in got)]
+                missing = [n for n in ([r[0] for r in regs] + [f'ca{k}' for k in range(len(cas))]) if may_receive(n, d) and (d == 255 or is_owned) and not any(g[0] == n for g in got)]
                 if wrong or missing:
                     bad.append(f"PDU1 single frame to {d:#x} ({dll}): delivered to {[g[0] for g in got]}; not entitled {[g[0] for g in wrong]}; missing {missing}")
             # drop any session the RTS may have opened before the next probe
@@ -117,6 +138,27 @@ def addressing_case(rng, dll):
     if sorted(g[0] for g in got) != sorted(names):
         bad.append(f"PDU2 broadcast ({dll}) reached {sorted(g[0] for g in got)}, expected {sorted(names)}")
     return bad, dict(dll=dll, cas=[(m, c.state, c.device_address) for c, m in cas], regs=regs)
+
+
+def listener_case(j):
+    """the bus listener forwards exactly the extended data frames: all 8 combinations of extended / error / remote"""
+    import sys
+    import can
+    bad = []
+    for ext in (False, True):
+        for err in (False, True):
+            for rtr in (False, True):
+                got = []
+
+                class E:
+                    def notify(self, cid, data, ts):
+                        got.append(cid)
+                L = sys.modules['j1939.electronic_control_unit'].MessageListener(E())
+                L.on_message_received(can.Message(arbitration_id=0x18FECA21 if ext else 0x123, is_extended_id=ext, is_error_frame=err,
+                                                  is_remote_frame=rtr, data=[] if rtr else [1, 2]))
+                if bool(got) != (ext and not err and not rtr):
+                    bad.append(f"bus listener {'forwarded' if got else 'dropped'} a frame with extended={ext} error={err} remote={rtr}")
+    return bad, dict(kind='listener-flags')
 
 
 def bystander_case(rng):
@@ -140,7 +182,10 @@ def oracle(ctx, full):
     findings, evals, distinct, samples = [], 0, set(), []
     for k in range(n):
         sub = random.Random(rng.getrandbits(48))
-        bad, desc = bystander_case(sub) if k % 5 == 4 else addressing_case(sub, 'j1939-21' if k % 2 == 0 else 'j1939-22')
+        if k == 0:
+            bad, desc = listener_case(sim.load(C.REPO))
+        else:
+            bad, desc = bystander_case(sub) if k % 5 == 4 else addressing_case(sub, 'j1939-21' if k % 2 == 0 else 'j1939-22')
         evals += 1
         distinct.add(C.struct_hash(desc))
         if len(samples) < 2:
@@ -152,7 +197,9 @@ def oracle(ctx, full):
                 rule="one real stack (both data link layers) holding 0-3 CAs (operational / not started / waiting for veto / cannot-claim) and 0-2 "
                      "ECU-level listeners (unfiltered / integer address): PDU1 single frames and TP RTS/DT/CTS/abort frames to 40..256 destinations "
                      "each: unowned destinations produce no delivery, no frame, no table change; owned ones reach exactly the entitled listeners; a "
-                     "PDU2 broadcast reaches everybody; a complete foreign session leaves a bystander silent")
+                     "PDU2 broadcast reaches everybody; a complete foreign session leaves a bystander silent; destination-specific address claims and "
+                     "requests (from addresses the local CAs hold) and FD.TP frames to unowned destinations likewise change nothing, not even a claim "
+                     "state; the bus listener forwards exactly extended, non-error, non-remote frames (all 8 flag combinations)")
 
 
 def replay(ctx, path):
